@@ -13,7 +13,7 @@ PINS = {
  },
  'function.rs': {'InnerFunctionManager::new': ['C01', 'C08'], 'InnerFunctionManager::register': ['C01', 'C08']},
  'context.rs': {'macro:create_context': ['C06', 'C08'], 'Context::new': ['C06'], 'Context::set': ['C01', 'C06', 'C08']},
- 'init.rs': {'init': ['C01', 'C08']},
+ 'init.rs': {'init': ['C01', 'C08', 'C12']},
  'descriptor.rs': {'DescriptorManager::new': ['C01', 'C18'], 'DescriptorManager::set': ['C18']},
 }
 def fingerprint(f, key):
